@@ -28,6 +28,7 @@ def check(ctx):
         ("mem", True, ["-rounds", "25" if quick else "300", "-threads", "6", "-ops", "40"]),
         ("dir", True, ["-rounds", "8" if quick else "100", "-threads", "4", "-ops", "30"]),
     ]
+    known_hits = {}
     try:
         for k, (impl, race, args) in enumerate(plans):
             rounds, report = conc.run_hconc("fs", ["-impl", impl, "-seed", str(ctx.seed * 100 + k), "-scratch", scratch] + args, race=race)
@@ -35,6 +36,17 @@ def check(ctx):
             stats[key] = conc.summarize(rounds)
             if not samples and rounds:
                 samples.append({"impl": impl, "round": rounds[0]})
+            torn = [r for r in rounds if r.get("torn")]
+            if torn:
+                stats[key]["rounds_with_a_partial_append_read"] = len(torn)
+                kf = [e for e in C.load_known("C14") if e.get("status") == "known" and e.get("match", {}).get("impl") == impl and e["match"].get("kind") == "partial-append-read"]
+                if kf:
+                    known_hits[kf[0]["key"]] = (kf[0], torn[0]["torn"])
+                elif not found:
+                    found = True
+                    ctx.violation("counterexample", "fs (%s): a read through another descriptor saw part of an append" % impl,
+                                  {"proto": "hconc-fs", "impl": impl, "args": args, "seed": ctx.seed * 100 + k},
+                                  expected="appends are applied atomically: a read sees a whole number of them", observed=torn[0]["torn"])
             bad = [r for r in rounds if r["linearizable"] == "Illegal" or r.get("problem")]
             if bad and not found:
                 found = True
@@ -45,10 +57,12 @@ def check(ctx):
                               observed=r.get("problem") or "porcupine: Illegal")
             if report and not found:
                 found = True
-                ctx.violation("counterexample", "fs (%s): data race / concurrent map access inside the library" % impl,
-                              {"proto": "hconc-fs-race", "impl": impl, "args": args}, expected="no data race", observed=report)
+                ctx.violation("counterexample", "fs (%s): data race, concurrent map access or runtime-detected deadlock inside the library" % impl,
+                              {"proto": "hconc-fs-race", "impl": impl, "args": args, "seed": ctx.seed * 100 + k}, expected="no data race, no fatal error of the Go runtime", observed=report)
     finally:
         shutil.rmtree(scratch, ignore_errors=True)
+    for key_, (e, ex) in known_hits.items():
+        ctx.known("%s — %s (this run: %s)" % (key_, e["what"], ex[:200]))
     C.report_broken_obligations(ctx, build, found)
     ctx.coverage.update({
         "evaluations": sum(s["operations"] for s in stats.values()),
